@@ -391,6 +391,11 @@ func (fc *FuncCtx) execAssign(x *ast.AssignStmt, st *St) {
 			base := fc.eval(ie.X, st)
 			idx := fc.eval(ie.Index, st)
 			vals = fc.indexValue(base, idx, st, ie, true)
+		} else if ta, ok := ast.Unparen(x.Rhs[0]).(*ast.TypeAssertExpr); ok && len(x.Rhs) == 1 && len(x.Lhs) == 2 && ta.Type != nil {
+			vals = fc.evalTypeAssert(ta, st, true)
+			if st.dead {
+				return
+			}
 		} else if len(x.Rhs) == 1 && len(x.Lhs) > 1 {
 			vals = fc.evalMulti(x.Rhs[0], st)
 			if st.dead {
@@ -760,11 +765,14 @@ func (fc *FuncCtx) evalMulti(e ast.Expr, st *St) []Term {
 		return []Term{fc.evalComposite(x, st)}
 	case *ast.FuncLit:
 		sig, _ := fc.typeOf(x).(*types.Signature)
-		fv := &FuncVal{Kind: "lit", Lit: x, Env: st.clone(), Sig: sig, Info: fc.info(), TArgs: fc.tsubst}
+		fv := &FuncVal{Kind: "lit", Lit: x, Env: st.clone(), Sig: sig, Info: fc.info(), TArgs: fc.tsubst, TTypes: fc.tsubstTypes}
 		return []Term{{S: "0", Sort: &Sort{Kind: KFunc}, Fn: fv}}
 	case *ast.TypeAssertExpr:
-		fc.unsupported(st, "type assertion", fc.pos(e))
-		return []Term{T("0", SInt)}
+		if x.Type == nil {
+			fc.unsupported(st, "type switch guard outside a type switch", fc.pos(e))
+			return []Term{T("0", SInt)}
+		}
+		return fc.evalTypeAssert(x, st, false)[:1]
 	case *ast.StarExpr:
 		fc.unsupported(st, "pointer dereference", fc.pos(e))
 		return []Term{T("0", SInt)}
@@ -1457,4 +1465,65 @@ func (fc *FuncCtx) collectMapLiteralValues(o *types.Var, name string, st *St) {
 			}
 		}
 	}
+}
+
+// evalTypeAssert: x.(T) where T is a case struct of a union.  The operand is either a value of the union's
+// interface type (the datatype value itself; a case-struct value is represented by the union value whose
+// constructor is that case) or an `any` into which such a value was boxed (Go keeps the dynamic type when an
+// interface value is converted to any).  ok <=> the dynamic type is the case struct.  Without comma-ok a
+// failing assertion is a panic site.  Everything else stays unsupported (fail closed).
+func (fc *FuncCtx) evalTypeAssert(x *ast.TypeAssertExpr, st *St, commaOk bool) []Term {
+	dead := []Term{T("0", SInt), False}
+	v := fc.eval(x.X, st)
+	if st.dead {
+		return dead
+	}
+	t := fc.typeOf(x.Type)
+	if tp, ok := types.Unalias(t).(*types.TypeParam); ok {
+		if gt, ok := fc.tsubstTypes[tp.Obj().Name()]; ok {
+			t = gt
+		} else {
+			fc.unsupported(st, "type assertion to an uninstantiated type parameter", fc.pos(x))
+			return dead
+		}
+	}
+	d, ctor := fc.ctorFor(t)
+	if d == nil || ctor == nil || !d.IsUnion {
+		fc.unsupported(st, "type assertion to a type that is not a union case", fc.pos(x))
+		return dead
+	}
+	us := fc.sortOf(t)
+	var u, ok Term
+	switch {
+	case v.Sort.Kind == KData && v.Sort.Name == us.Name:
+		u = v
+		ok = T("((_ is "+ctor.Name+") "+v.S+")", SBool)
+	case v.Sort.Kind == KUnint && v.Sort.Name == "Any":
+		box := "box_" + mangle(us.SMT())
+		fc.boxAny(fc.fresh("boxdecl", us)) // declares box_<sort>
+		unbox := "unboxu_" + mangle(us.SMT())
+		isbox := "isboxu_" + mangle(us.SMT())
+		if !fc.declSet[unbox] {
+			fc.declareFun(unbox, []*Sort{v.Sort}, us)
+			fc.declareFun(isbox, []*Sort{v.Sort}, SBool)
+			fc.addAxiom(fmt.Sprintf("(forall ((a %s)) (! (and (%s (%s a)) (= (%s (%s a)) a)) :pattern ((%s a))))", us.SMT(), isbox, box, unbox, box, box))
+		}
+		u = App(us, unbox, v)
+		ok = And(App(SBool, isbox, v), T("((_ is "+ctor.Name+") "+u.S+")", SBool))
+	default:
+		fc.unsupported(st, "type assertion on a value that is neither the union nor any", fc.pos(x))
+		return dead
+	}
+	if !commaOk {
+		s2 := st.clone()
+		s2.assume(Not(ok))
+		fc.panicAt(s2, fc.pos(x), "failed type assertion")
+		st.assume(ok)
+		return []Term{u, True}
+	}
+	// with comma-ok a failed assertion yields the zero value of T: it is never looked at by the code verified
+	// here before ok is tested; model it as an arbitrary value of the union sort
+	res := fc.fresh("asserted", us)
+	st.assume(Implies(ok, Eq(res, u)))
+	return []Term{res, fc.nameIt(st, "ok", ok)}
 }
